@@ -94,7 +94,21 @@ type Conn struct {
 	reads    int
 	// Remote is the peer address (default 1.2.3.4:5).
 	Remote *net.TCPAddr
+	// Stalls: stream positions at which a Read fails once with a timeout error
+	// (read deadline expired) before the byte at that position is delivered;
+	// a Read never crosses a pending stall position. Ascending order.
+	Stalls []int
+	stalled int
 }
+
+// ErrTimeout is a net.Error whose Timeout() is true (an expired deadline).
+type timeoutError struct{}
+
+func (timeoutError) Error() string   { return "zz: i/o timeout" }
+func (timeoutError) Timeout() bool   { return true }
+func (timeoutError) Temporary() bool { return true }
+
+var ErrTimeout net.Error = timeoutError{}
 
 func (c *Conn) Write(b []byte) (int, error) {
 	c.Writes = append(c.Writes, append([]byte(nil), b...))
@@ -111,6 +125,16 @@ func (c *Conn) Read(p []byte) (int, error) {
 	n := len(c.In) - c.Pos
 	if n > len(p) {
 		n = len(p)
+	}
+	if c.stalled < len(c.Stalls) {
+		next := c.Stalls[c.stalled]
+		if next <= c.Pos {
+			c.stalled++
+			return 0, ErrTimeout
+		}
+		if n > next-c.Pos {
+			n = next - c.Pos
+		}
 	}
 	if c.OneByOne {
 		n = 1
